@@ -239,6 +239,23 @@ def outcome_fp(op, res, exc):
     return ('ok', fp(res))
 
 
+WARM_OP = 'EnumerateClassNames'
+WARM_BODY = (b'<?xml version="1.0" encoding="utf-8" ?>\n<CIM CIMVERSION="2.0" '
+             b'DTDVERSION="2.0"><MESSAGE ID="1001" PROTOCOLVERSION="1.0">'
+             b'<SIMPLERSP><IMETHODRESPONSE NAME="EnumerateClassNames">'
+             b'<IRETURNVALUE><CLASSNAME NAME="VF_Warm"/></IRETURNVALUE>'
+             b'</IMETHODRESPONSE></SIMPLERSP></MESSAGE></CIM>')
+
+
+def warm_up(conn, warm):
+    """A successful operation that precedes the judged one."""
+    warm['on'] = True
+    try:
+        conn.EnumerateClassNames()
+    finally:
+        warm['on'] = False
+
+
 def execute(conn, op, args, kw):
     res, exc = None, None
     try:
@@ -276,6 +293,28 @@ def run_case(ctx, i, rng):
               'OpenEnumerateInstances', 'IterEnumerateInstances',
               'IterEnumerateInstancePaths') and rng.random() < 0.6:
         args = ('VF_Other',)      # the long non-ASCII instances
+    if rng.random() < 0.3:
+        # long non-ASCII text in the REQUEST, so that integer detail levels
+        # of the http logger cut inside multi-byte characters there as well
+        big = ''.join(rng.choice(NONASCII)
+                      for _ in range(rng.randint(30, 400)))
+        if op in ('ExecQuery', 'OpenQueryInstances', 'IterQueryInstances'):
+            args = (args[0], big) + tuple(args[2:])
+        elif op == 'InvokeMethod':
+            kw = dict(kw, VfText=big)
+        elif op in ('Associators', 'AssociatorNames', 'References',
+                    'ReferenceNames', 'OpenAssociatorInstances',
+                    'OpenReferenceInstances', 'IterAssociatorInstances',
+                    'IterReferenceInstances', 'OpenAssociatorInstancePaths',
+                    'OpenReferenceInstancePaths',
+                    'IterAssociatorInstancePaths',
+                    'IterReferenceInstancePaths'):
+            kw = dict(kw, Role=big)
+        elif op in ('GetQualifier', 'DeleteQualifier'):
+            args = (big,) + tuple(args[1:])
+        elif op in ('EnumerateInstances', 'EnumerateInstanceNames', 'GetClass',
+                    'EnumerateClasses', 'EnumerateClassNames'):
+            kw = dict(kw, namespace='root/' + big[:40])
     rclass = rng.choice(['valid', 'valid', 'valid', 'cimerror-nonascii',
                          'mutated', 'garbage', 'invalid', 'http', 'fault',
                          'valid-reencoded', 'recorded'])
@@ -294,6 +333,10 @@ def run_case(ctx, i, rng):
     target = rng.choice([0, 0, 1])
     recorded = []          # answers given in the bare run
     state = {'n': 0}
+    # now and then another, successful operation precedes the judged one on
+    # the same connection: what it left behind must not show up afterwards
+    warm = {'on': False}
+    warm_n = 1 if rng.random() < 0.35 else 0
 
     def valid_answer(request):
         try:
@@ -318,6 +361,8 @@ def run_case(ctx, i, rng):
         replayed = rd.get('answers')
 
     def first_handler(request):
+        if warm['on']:
+            return transport.Scripted(body=WARM_BODY)
         n = state['n']
         state['n'] += 1
         ans = None
@@ -372,9 +417,12 @@ def run_case(ctx, i, rng):
     dn = rng.choice([None, 'root/cimv2'])
     conn0, ad0 = transport.make_conn(first_handler, creds=creds,
                                      default_namespace=dn)
+    if warm_n:
+        warm_up(conn0, warm)
     res0, exc0 = execute(conn0, op, args, kw)
     conn0.close()
-    if not ad0.requests and isinstance(exc0, (TypeError, ValueError)):
+    if len(ad0.requests) == warm_n and \
+            isinstance(exc0, (TypeError, ValueError)):
         ctx.outcome('argument-rejected-locally')
         return
     out0 = outcome_fp(op, res0, exc0)
@@ -384,6 +432,8 @@ def run_case(ctx, i, rng):
     replay_state = {'n': 0, 'extra': 0}
 
     def replay_handler(request):
+        if warm['on']:
+            return transport.Scripted(body=WARM_BODY)
         n = replay_state['n']
         replay_state['n'] += 1
         if n < len(recorded):
@@ -446,6 +496,8 @@ def run_case(ctx, i, rng):
         if cfg['log_disabled']:
             for r_ in conn1.operation_recorders:
                 r_.disable()
+        if warm_n:
+            warm_up(conn1, warm)
         res1, exc1 = execute(conn1, op, args, kw)
         text_str, text_repr = str(conn1), repr(conn1)
         stats_snapshot = conn1.statistics.snapshot()
@@ -509,7 +561,8 @@ def run_case(ctx, i, rng):
                       % (desc, len(recorded), replay_state['n'],
                          cfg_name(cfg)), detail)
     # ---- oracle 2: raw request / reply -----------------------------------
-    if ad1.requests and (exc1 is None or isinstance(exc1, pywbem.Error)):
+    if len(ad1.requests) > warm_n and \
+            (exc1 is None or isinstance(exc1, pywbem.Error)):
         body = ad1.last_body()
         decl = b'<?xml version="1.0" encoding="utf-8" ?>\n'
         if lrr is None or decl + lrr.encode('utf-8') != body:
@@ -530,6 +583,19 @@ def run_case(ctx, i, rng):
                               'received' % desc,
                               dict(detail, last_raw_reply=short(lrp),
                                    received=short(lb)))
+        elif last.exc is not None and lrp is not None:
+            # nothing was received for the last request of this operation
+            ctx.count('last_raw_reply-after-no-reply-checked')
+            ctx.violation('last_raw_reply.stale',
+                          '%s: the last request got no reply (%s), but '
+                          'last_raw_reply is %s%s' % (
+                              desc, type(last.exc).__name__, short(lrp, 120),
+                              ' - the reply of the preceding operation'
+                              if warm_n and lrp == WARM_BODY else ''),
+                          dict(detail, preceded_by_another_operation=bool(
+                              warm_n)))
+        elif last.exc is not None:
+            ctx.count('last_raw_reply-after-no-reply-checked')
     # ---- oracle 3: statistics ------------------------------------------------
     observer_raised = exc1 is not None and \
         not isinstance(exc1, pywbem.Error) and type(exc1) is not type(exc0)
@@ -539,6 +605,12 @@ def run_case(ctx, i, rng):
         counts = {name: (s.count, s.exception_count)
                   for name, s in stats_snapshot}
         exp = (1, 1 if exc1 is not None else 0)
+        if warm_n:
+            # the preceding operation was counted as well
+            if op == WARM_OP:
+                exp = (2, exp[1])
+            elif counts.get(WARM_OP) == (1, 0):
+                del counts[WARM_OP]
         got = counts.get(op)
         if got != exp or len(counts) != 1:
             ctx.violation('statistics.count',
